@@ -42,6 +42,10 @@
 #undef protected
 #include "lang/c/minimessage/MiniMessageGateway.h"
 #include "lang/c/micromessage/MicroMessageGateway.h"
+extern "C" {   // harness/gw_c_minigw.c: read-only view of the mini gateway's private state
+uint32 vh_mg_in_pos(const MMessageGateway *); uint32 vh_mg_in_max(const MMessageGateway *); uint32 vh_mg_in_size(const MMessageGateway *);
+uint32 vh_mg_out_bufs(const MMessageGateway *); uint32 vh_mg_out_pos(const MMessageGateway *);
+}
 
 using namespace muscle;
 
@@ -248,13 +252,15 @@ static int32 c_recv(uint8 * buf, uint32 n, void * arg)
 }
 
 // heads MC (MiniMessageGateway sends, C++ MessageIOGateway receives), CM, UC (MicroMessageGateway sends), CU.
-// Oracle only: the flattened bytes of every delivered Message must equal those of the queued one, in order.
+// Oracle: the flattened bytes of every delivered Message must equal those of the queued one, in order.
+// MC and CM also print the per-call tokens of Gw/MiniModel.v + Gw/FrameModel.v (UC, CU: oracle only).
 static void run_c_case(int k, const std::string & headstr, const std::string & body)
 {
-   std::ostringstream orc;
+   std::ostringstream orc, o;
+   const bool cSends = (headstr[0] != 'C');
+   const bool mini   = (headstr.find('M') != std::string::npos);
+   bool injected = false;
    {
-      const bool cSends = (headstr[0] != 'C');
-      const bool mini   = (headstr.find('M') != std::string::npos);
       Pipe pipe;
       CScript cscr; cscr.p = &pipe; cscr.pos = 0;
       ScriptIO * xio = new ScriptIO(&pipe); DataIORef xref(xio);
@@ -274,6 +280,7 @@ static void run_c_case(int k, const std::string & headstr, const std::string & b
          {
             const std::string fb = unhex(a.size()>1 ? a[1] : "");
             sent.push_back(fb);
+            o << "q";
             if (!cSends)
             {
                MessageRef m = GetMessageFromPool();
@@ -308,8 +315,21 @@ static void run_c_case(int k, const std::string & headstr, const std::string & b
          {
             const uint32 maxb = (uint32) strtoul(a[1].c_str(), NULL, 10);
             cscr.script = nums(a.size()>2 ? a[2] : ""); cscr.pos = 0; xio->Load(cscr.script);
-            if (!cSends) (void) cppgw.DoOutput(maxb);
-            else if (mini) (void) MGDoOutput(mgw, maxb, c_send, &cscr);
+            const size_t before = pipe.q.size();
+            if (!cSends)
+            {
+               const io_status_t r = cppgw.DoOutput(maxb);
+               o << "o"; if (r.IsError()) o << "E"; else o << r.GetByteCount();
+               o << ":" << hex(xio->_moved) << ":" << cppgw.GetOutgoingMessageQueue().GetNumItems() << "/";
+               if (cppgw._sendBuffer._buffer()) o << cppgw._sendBuffer._buffer()->GetNumBytes(); else o << "-";
+               o << "/" << cppgw._sendBuffer._offset;
+            }
+            else if (mini)
+            {
+               const int32 r = MGDoOutput(mgw, maxb, c_send, &cscr);
+               std::string w; for (size_t i=before; i<pipe.q.size(); i++) w.push_back((char) pipe.q[i]);
+               o << "o" << r << ":" << hex(w) << ":" << vh_mg_out_bufs(mgw) << "/" << vh_mg_out_pos(mgw);
+            }
             else (void) UGDoOutput(&ugw, maxb, c_send, &cscr);
          }
          else if (a[0] == "i")
@@ -318,15 +338,24 @@ static void run_c_case(int k, const std::string & headstr, const std::string & b
             cscr.script = nums(a.size()>2 ? a[2] : ""); cscr.pos = 0; xio->Load(cscr.script);
             if (cSends)
             {
-               (void) cppgw.DoInput(recv, maxb);
-               MessageRef m; while(recv.RemoveHead(m).IsOK()) {ByteBufferRef b = m()->FlattenToByteBuffer(); got.push_back(std::string((const char *)b()->GetBuffer(), b()->GetNumBytes()));}
+               const io_status_t r = cppgw.DoInput(recv, maxb);
+               o << "i"; if (r.IsError()) o << "E"; else o << r.GetByteCount();
+               o << ":";
+               MessageRef m; while(recv.RemoveHead(m).IsOK()) {o << show_msg('F', m); ByteBufferRef b = m()->FlattenToByteBuffer(); got.push_back(std::string((const char *)b()->GetBuffer(), b()->GetNumBytes()));}
+               o << ":";
+               const ByteBuffer * bb = cppgw._recvBuffer._buffer();
+               if (bb) o << bb->GetNumBytes() << "/" << cppgw._recvBuffer._offset << "/" << ((bb == cppgw._scratchRecvBuffer()) ? "S" : "H"); else o << "-/" << cppgw._recvBuffer._offset << "/-";
+               o << "/" << (cppgw.GetUnrecoverableErrorStatus().IsError() ? 1 : 0) << ":" << pipe.q.size();
             }
             else if (mini)
             {
                MMessage * rm = NULL;
                const int32 r = MGDoInput(mgw, maxb, c_recv, &cscr, &rm);
-               if (r < 0) {orc << k << " ORACLE FAIL MGDoInput reports an error on a well-formed stream at op#" << n << "\n"; skip = true;}
-               if (rm) {std::string f(MMGetFlattenedSize(rm), 0); MMFlattenMessage(rm, &f[0]); got.push_back(f); MMFreeMessage(rm);}
+               if ((r < 0)&&(!injected)) {orc << k << " ORACLE FAIL MGDoInput reports an error on a well-formed stream at op#" << n << "\n"; skip = true;}
+               o << "i"; if (r < 0) o << "E"; else o << r;
+               o << ":";
+               if (rm) {std::string f(MMGetFlattenedSize(rm), 0); MMFlattenMessage(rm, (uint8 *) &f[0]); got.push_back(f); MMFreeMessage(rm); o << "(" << hex(f) << ")";}
+               o << ":" << vh_mg_in_pos(mgw) << "/" << vh_mg_in_max(mgw) << "/" << vh_mg_in_size(mgw) << ":" << pipe.q.size();
             }
             else
             {
@@ -337,14 +366,22 @@ static void run_c_case(int k, const std::string & headstr, const std::string & b
             }
             bool ok = (got.size() <= sent.size());
             for (size_t i=0; (ok)&&(i<got.size()); i++) if (got[i] != sent[i]) ok = false;
-            if ((!ok)&&(!skip)) {orc << k << " ORACLE FAIL " << headstr << ": delivered sequence is not a prefix of the queued sequence (item " << got.size() << " of " << sent.size() << ") after op#" << n << "\n"; skip = true;}
+            if ((!ok)&&(!skip)&&(!injected)) {orc << k << " ORACLE FAIL " << headstr << ": delivered sequence is not a prefix of the queued sequence (item " << got.size() << " of " << sent.size() << ") after op#" << n << "\n"; skip = true;}
          }
+         else if (a[0] == "x")
+         {
+            // foreign bytes straight into the pipe (receiver robustness; such cases carry no sent==received claim)
+            const std::string fb = unhex(a.size()>1 ? a[1] : "");
+            for (size_t i=0; i<fb.size(); i++) pipe.q.push_back((uint8) fb[i]);
+            o << "x"; injected = true;
+         }
+         o << " ";
       }
       const bool senderDone = cSends ? (mini ? (MGHasBytesToOutput(mgw) == 0) : (UGHasBytesToOutput(&ugw) == 0)) : (cppgw.HasBytesToOutput() == false);
-      if ((!skip)&&(senderDone)&&(pipe.q.empty())&&(got.size() != sent.size())) orc << k << " ORACLE FAIL " << headstr << ": all bytes moved but " << got.size() << " of " << sent.size() << " Messages delivered\n";
+      if ((!skip)&&(!injected)&&(senderDone)&&(pipe.q.empty())&&(got.size() != sent.size())) orc << k << " ORACLE FAIL " << headstr << ": all bytes moved but " << got.size() << " of " << sent.size() << " Messages delivered\n";
       if (mgw) MGFreeMessageGateway(mgw);
    }
-   printf("%d oracle-only\n", k);
+   if (mini) printf("%d %s\n", k, o.str().c_str()); else printf("%d oracle-only\n", k);
    if (!orc.str().empty()) fputs(orc.str().c_str(), stdout);
    fflush(stdout);
 }
